@@ -434,6 +434,15 @@ class TrajectoryCalc:
                 # break
             # endregion
         # endregion
+        # A tail-wind component stretches the ground distance covered by one step beyond calc_step, so the projectile can
+        # jump from short of the last record distance to past the loop bound: the row for that distance is still owed
+        if filter_flags and record_step > 0 and data_filter.next_record_distance <= maximum_range + 1e-9 * record_step:
+            data_filter.clear_current_flag()
+            if (data := data_filter.should_record(range_vector, velocity_vector, mach, time)) is not None:
+                ranges.append(create_trajectory_row(data.time, data.position, data.velocity,
+                    data.velocity.magnitude(), data.mach, self.spin_drift(data.time), self.look_angle,
+                    density_factor, drag, self.weight, data_filter.current_flag
+                ))
         # Ensure that we have at least two data points in trajectory
         if len(ranges) < 2:
             ranges.append(create_trajectory_row(
